@@ -10,9 +10,20 @@ width `E`, then the shape as a flat list of naturals in the grammar of `Packing.
       pub   n  lab …              packed public vector, by position
       priv  n  lab …              packed private vector, by position
       flat  publicFlatLen privateFlatLen
-      meta  wf=0|1 distinct=0|1 validated=0|1 dead=k
-            (`dead` = allocated inputs not consumed by the verifier model; `validated`, `dead`
-             are model-only and compared by `bin/checks_c14.py`, not with the implementation)
+      meta  wf=0|1 distinct=0|1 validated=0|1 dead=k built=0|1
+            (`dead` = allocated inputs not consumed by the verifier model; `built` = the verifier
+             model's build-time check of the per-query folding data passes (`friSibCheck`);
+             `validated`, `dead`, `built` are model-only and judged by `bin/checks_c14.py`
+             (`validated ∧ (wf ∨ built) → dead = 0`: `no_dead_input_*`, `no_dead_input_*_built`;
+             `built → wf`: `friSibCheck_ok_wf`), not compared with the implementation)
+
+  sibcheck D nq (n (log_arity siblings){n}){nq}
+                        per query proof its commit-phase steps as (log_arity, sibling_values.len())
+    → sibcheck ok | sibcheck error:zero:<k> | error:count:<q> | error:arity:<q>:<k> | error:sib:<q>:<k>
+      (`P3R.Packing.friSibCheck`, the model of the shape loop at the head of `verify_fri_circuit`:
+       schedule entry 0 / opening count / log_arity vs schedule of the first query / sibling
+       coefficient count `(2^log_arity − 1)·D` with checked arithmetic; `P3R.C14.friSibCheck_ok_wf`,
+       `malformed_siblings_rejected`)
 
   hidmerge tokens…      tokens = opening structure (list of rounds, each a list of matrices, each
                         the number of opening points) then the hiding random opened values
@@ -40,14 +51,19 @@ namespace C14Driver
 
 def b2s (b : Bool) : String := if b then "1" else "0"
 
-def render (alloc : List Slot) (pub priv uses : List Label) (wf validated : Bool) : List String :=
+def render (alloc : List Slot) (pub priv uses : List Label) (wf validated built : Bool) : List String :=
   let labs := alloc.map Slot.lab
   let dead := (labs.filter fun l => !(uses.contains l)).length
   [ s!"alloc {alloc.length} " ++ " ".intercalate (alloc.map showSlot),
     s!"pub {pub.length} " ++ " ".intercalate pub,
     s!"priv {priv.length} " ++ " ".intercalate priv,
     s!"flat {(pubOf alloc).length} {(privOf alloc).length}",
-    s!"meta wf={b2s wf} distinct={b2s (allDistinct labs)} validated={b2s validated} dead={dead}" ]
+    s!"meta wf={b2s wf} distinct={b2s (allDistinct labs)} validated={b2s validated} dead={dead} built={b2s built}" ]
+
+def builtOk (D : Nat) (f : FriShape) : Bool :=
+  match friSibCheck D f with
+  | .ok _ => true
+  | .error _ => false
 
 def hidmerge (toks : List Nat) : List String :=
   match pList (pList pNat) toks with
@@ -61,6 +77,23 @@ def hidmerge (toks : List Nat) : List String :=
         if dead = 0 then ["hidmerge ok"] else [s!"hidmerge ok-dead={dead}"]
     | _ => ["bad-op"]
   | none => ["bad-op"]
+
+def pPair : P (Nat × Nat) := fun r => do
+  let (a, r) ← pNat r
+  let (b, r) ← pNat r
+  pure ((a, b), r)
+
+def sibcheck : List Nat → List String
+  | D :: toks =>
+    match pList (pList pPair) toks with
+    | some (qs, []) =>
+      if D = 0 ∨ D > 8 ∨ qs.any (fun q => q.any (fun p => p.1 > 255)) then ["bad-op"] else
+      let f : FriShape := ⟨[], 0, qs.map (fun q => ⟨[], q.map (fun p => ⟨p.1, p.2, []⟩)⟩), 0⟩
+      match friSibCheck D f with
+      | .ok _ => ["sibcheck ok"]
+      | .error e => [s!"sibcheck error:{e.name}"]
+    | _ => ["bad-op"]
+  | _ => ["bad-op"]
 
 def pairs : List Nat → Option (List (Nat × Nat))
   | [] => some []
@@ -84,6 +117,10 @@ def step (line : String) : List String :=
     match rest.mapM String.toNat? with
     | some toks => friphase toks
     | none => ["bad-op"]
+  | "sibcheck" :: rest =>
+    match rest.mapM String.toNat? with
+    | some toks => if toks.length > 20000 then ["bad-op"] else sibcheck toks
+    | none => ["bad-op"]
   | "hidmerge" :: rest =>
     match rest.mapM String.toNat? with
     | some toks => if toks.length > 20000 then ["bad-op"] else hidmerge toks
@@ -96,12 +133,12 @@ def step (line : String) : List String :=
       | "uni" =>
         match pUni toks with
         | some (s, []) =>
-          render (uniAlloc D E s) (uniPub E s) (uniPriv D s) (uniUses D E s) s.pcs.wf s.validated
+          render (uniAlloc D E s) (uniPub E s) (uniPriv D s) (uniUses D E s) s.pcs.wf s.validated (builtOk D s.pcs.fri)
         | _ => ["bad-op"]
       | "batch" =>
         match pBatch toks with
         | some (s, []) =>
-          render (batchAlloc D E s) (batchPub E s) (batchPriv D s) (batchUses D E s) s.pcs.wf s.validated
+          render (batchAlloc D E s) (batchPub E s) (batchPriv D s) (batchUses D E s) s.pcs.wf s.validated (builtOk D s.pcs.fri)
         | _ => ["bad-op"]
       | _ => ["bad-op"]
     | _ => ["bad-op"]
